@@ -21,6 +21,15 @@ CHECKS = {
  "C02": ("dbsim", "exploration", "deterministic simulation: seeded histories on twin databases (with / without user indexes), probe equality after every step",
          "Seeded search over DML/DDL histories and probe queries; twin instances differ only in the existence of user-defined indexes; any difference in base tables or in a probe result (multiset; sequence under total ORDER BY) is a violation, minimised and replayable.",
          "Sampling, not proof. Probe SQL subset as listed in the evidence. Known finding C02-index-f64-precision keeps integers beyond +-2^53 out of this check's workload.", "6/C02"),
+ "C03": ("dbsim", "exploration", "deterministic simulation with buggify twins: every probe executed with the columnar gate open and forced shut (guarded hook) on states reached by seeded histories",
+         "Same state, two execution paths: each generated single-table aggregate probe runs with the columnar gate open and with it forced shut; rows must be equal (numerics by value); on the gated path COUNT is never NULL and exactly one row is returned. The hook's hit counter in the evidence shows how often the gated path was really consulted.",
+         "Sampling. Known finding C03-columnar-f64-sum keeps integers beyond +-2^53 out of this workload. HAVING/ORDER BY/LIMIT/OFFSET probes exercise the gate's refusal, not the columnar kernels.", "6/C03"),
+ "C04": ("dbsim", "exploration", "deterministic simulation: the executor's rayon operators run on a seeded single-thread scheduler stand-in; thresholds switched per run (guarded hook); same probe under never/always-parallel x schedules",
+         "Each probe is executed under never-parallel and four always/threshold-7 parallel configurations, each with its own seeded schedule (execution order of map/filter items, chunk order, split tree of the stable merge sort); all must agree (multiset; sequence under total ORDER BY). Bulk-loaded runs push the chunked hash-join build over several chunks.",
+         "The stand-in checks schedule-independence of results, not memory safety of real threads (the parallel closures contain no unsafe code).", "6/C04"),
+ "C05": ("dbsim", "exploration", "deterministic simulation with buggify twins: every probe family executed with all optimisations, with none (definitional nested evaluation) and with a seeded partial subset, in several equivalent renderings",
+         "Same state, different optimizer decisions: join reordering, hash vs nested-loop join, IN/EXISTS rewrites, semi/anti-join transform, index-backed IN and index scans are switched per execution through guarded hooks; semi/anti/inner-join intents are additionally rendered as IN / EXISTS / NOT IN / NOT EXISTS, permuted comma joins, INNER JOIN, derived tables. All executions of a family must agree.",
+         "Sampling. The cross-rendering half is metamorphic generation. Known finding C05-not-exists-rewrite restricts anti-join families to NOT NULL keys.", "6/C05"),
  "C09": ("dbsim", "exploration", "deterministic simulation: seeded DML histories; per-step oracle = SUT's own SELECT reading of the predicate on the pre-state",
          "For every UPDATE/DELETE of a seeded history the affected-row set and new images are read with one SELECT on the pre-state; count and post-state must match exactly; INSERT must add exactly the given rows.",
          "Sampling. Index-driven SELECT paths are excluded here (C02 decides them).", "6/C09"),
